@@ -216,9 +216,138 @@ let dobs_of_digest (d : string) : dobs =
         | _ -> failwith "disp_pred: bad syn") (lst (get "sy"));
     ob_na = (get "na" = "1"); ob_ch = z_of_string (get "ch"); ob_ct = z_of_string (get "ct") }
 
+(* ---- C10, socket half, on the implementation's own observations ----
+   disp_pred c10 <max_streams> <random> <op> ... | <observations>      (the whole case line, then the observation line)
+   The ops are replayed only as far as the bookkeeping of the transport's datagram queue needs (D / G / Q push, a
+   run_once whose recv arm fired - result OKr - pops the oldest); everything judged is the implementation's own
+   observation.  On every run_once whose recv arm fired: c10_disp_step_ok with the sender and what the datagram parsed
+   to (raw bytes: the extracted parse_raw, None for garbage); on every post-state (and the initial one):
+   c10_disp_bounds_ok; and, as before, no PANIC anywhere and c12_step_ok on every step.
+   `c10n` is the same and prints the number of steps judged after OK. *)
+let c10_parse_tok tok =
+  match String.split_on_char '/' tok with
+  | [res; sent; fwd; dg] ->
+    let rsts = if sent = "-" then 0 else
+        List.length (List.filter (fun t -> match String.split_on_char ':' t with
+            | _ :: "3" :: _ -> true | _ -> false) (String.split_on_char ',' sent)) in
+    let fw = if fwd = "-" then [] else List.map (fun t -> match String.split_on_char ':' t with
+        | [a; c] -> { k_addr = z_of_string a; k_conn = z_of_string c }
+        | _ -> failwith "disp_pred: bad fwd") (String.split_on_char ',' fwd) in
+    Some (res, rsts, fw, dobs_of_digest dg)
+  | _ -> None
+
+let c10_raw_of_hex hex : raw_parse =
+  let n = String.length hex / 2 in
+  parse_raw (List.init n (fun i -> z_of_int (int_of_string ("0x" ^ String.sub hex (2 * i) 2))))
+
+let run_disp_pred_c10 (counts : bool) max_streams ops obs =
+  let ms = z_of_string max_streams in
+  let queue : (z * raw_parse * bool) list ref = ref [] in    (* sender, parse, came as raw bytes *)
+  let push_parsed f = let (a, m) = parse_dgram f in
+    queue := !queue @ [(a, (match m with Some m -> RpMsg m | None -> RpGarbage), false)] in
+  let n_recv = ref 0 and n_raw = ref 0 and n_garbage = ref 0 and n_states = ref 0 in
+  let fin () = if counts then Printf.sprintf "OK recv=%d raw=%d garbage=%d states=%d" !n_recv !n_raw !n_garbage !n_states
+    else "OK" in
+  let rec go pre i ops obs =
+    match ops, obs with
+    | _, [] | [], _ -> fin ()
+    | _, "PANIC" :: _ -> Printf.sprintf "FAIL c10_disp_no_panic step=%d" i
+    | op :: ops', tok :: obs' ->
+      (match c10_parse_tok tok with
+       | None -> fin ()          (* ARM-NOT-* tokens end the usable part of the trace *)
+       | Some (res, rsts, fw, post) ->
+         let o = { so_pre = pre; so_rsts = z_of_int rsts; so_fwd = fw; so_post = post } in
+         let c = op.[0] and rest = String.sub op 1 (String.length op - 1) in
+         if res <> "BADOP" then
+           (match c with
+            | 'D' -> push_parsed (String.split_on_char ',' rest)
+            | 'G' -> (match String.split_on_char ',' rest with
+                | [a; hex] -> queue := !queue @ [(z_of_string a, c10_raw_of_hex hex, true)]
+                | _ -> failwith "disp_pred: bad G")
+            | 'Q' -> (match String.split_on_char ':' rest with
+                | [_; _; dg] -> push_parsed (String.split_on_char ',' dg)
+                | _ -> failwith "disp_pred: bad Q")
+            | _ -> ());
+         let is_run = (c = 'R' || c = 'Q') in
+         let verdict =
+           if is_run && res = "ERR" then Some "c10_disp_no_err"
+           else if is_run && res = "OKr" then
+             (match !queue with
+              | [] -> Some "c10_disp_recv_without_datagram"
+              | (addr, p, raw) :: r ->
+                queue := r;
+                (match p with
+                 | RpPanic -> Some "c10_disp_parse_total"
+                 | RpGarbage | RpMsg _ ->
+                   let om = (match p with RpMsg m -> Some m | _ -> None) in
+                   incr n_recv;
+                   if raw then incr n_raw;
+                   if om = None then incr n_garbage;
+                   if c10_disp_step_ok addr om o then None else Some "c10_disp_step_ok"))
+           else None in
+         (match verdict with
+          | Some w -> Printf.sprintf "FAIL %s step=%d" w i
+          | None ->
+            if not (c10_disp_bounds_ok ms post) then Printf.sprintf "FAIL c10_disp_bounds_ok step=%d" i
+            else if not (c12_step_ok ms o) then Printf.sprintf "FAIL c12_step_ok step=%d" i
+            else (incr n_states; go post (i + 1) ops' obs'))) in
+  match obs with
+  | "PANIC" :: _ -> "FAIL c10_disp_no_panic step=-1"
+  | first :: rest ->
+    (match c10_parse_tok first with
+     | Some (_, _, _, d0) ->
+       if not (c10_disp_bounds_ok ms d0) then "FAIL c10_disp_bounds_ok step=-1"
+       else (incr n_states; go d0 0 ops rest)
+     | None -> fin ())
+  | [] -> fin ()
+
+
 (* disp_pred <c12|c13|c10|c11> <max_streams> | <observations> *)
+(* the per-address connecting slots of a digest (cn=<addr>:<tok>.<seq>+-+-+-,...), tokens as relabelled *)
+let ctable_of_digest (d : string) =
+  let parts = String.split_on_char ';' d in
+  let p = List.find (fun x -> String.length x > 3 && String.sub x 0 3 = "cn=") parts in
+  let v = String.sub p 3 (String.length p - 3) in
+  let lst = if v = "-" then [] else String.split_on_char ',' v in
+  List.map (fun t -> match String.split_on_char ':' t with
+      | [a; slots] ->
+        (z_of_string a, List.map (fun sl ->
+             if sl = "-" then None else
+               match String.split_on_char '.' sl with
+               | [tk; q] -> Some { cn_token = z_of_string tk; cn_seq = z_of_string q }
+               | _ -> failwith "disp_pred: bad slot") (String.split_on_char '+' slots))
+      | _ -> failwith "disp_pred: bad connecting entry") lst
+
+(* C13 "every pending connect is accounted for": c13_pending_ok on every step of the observations *)
+let run_c13_pending obs =
+  let parse tok =
+    match String.split_on_char '/' tok with
+    | [res; sent; _fwd; dg] ->
+      let kind = (match res with "OKa" -> 1 | "OKc" | "PENDING" -> 2 | "OKr" -> 3 | _ -> 0) in
+      let syns = if sent = "-" then [] else
+          List.filter_map (fun t -> match String.split_on_char ':' t with
+              | [a; "4"; _; q; _] -> Some (z_of_string a, z_of_string q)
+              | _ -> None) (String.split_on_char ',' sent) in
+      Some (kind, syns, ctable_of_digest dg)
+    | _ -> None in
+  let rec go pre i = function
+    | [] -> "OK"
+    | tok :: rest ->
+      (match parse tok with
+       | None -> "OK"
+       | Some (kind, syns, post) ->
+         let o = { po_kind = z_of_int kind; po_syns = syns; po_pre = pre; po_post = post } in
+         if not (c13_pending_ok o) then Printf.sprintf "FAIL c13_pending_ok step=%d" i
+         else go post (i + 1) rest) in
+  match obs with
+  | first :: rest -> (match parse first with Some (_, _, t0) -> go t0 0 rest | None -> "OK")
+  | [] -> "OK"
+
+(* disp_pred <c12|c13|c10|c11|c13p> <max_streams> | <observations> *)
 let run_disp_pred toks =
   match split_bar [] toks with
+  | (("c10" | "c10n" as which) :: max_streams :: _random :: ops, obs) ->
+    run_disp_pred_c10 (which = "c10n") max_streams ops obs
   | ([which; max_streams], obs) ->
     let parse tok =
       match String.split_on_char '/' tok with
@@ -257,6 +386,8 @@ let run_disp_pred toks =
            if not ok then Printf.sprintf "FAIL %s_step_ok step=%d" (if which = "c10" then "c12" else which) i
            else if which = "c12" && not (c12_syn_fresh_ok pre syns) then Printf.sprintf "FAIL c12_syn_fresh_ok step=%d" i
            else go post (i + 1) rest) in
+    if which = "c13p" then run_c13_pending obs
+    else
     if which = "c11" then
       (let rec first i = function
           | [] -> "OK"
